@@ -497,19 +497,29 @@ def validate11 (st : St) (msgs : List (Nat × List (Nat × Nat))) : St :=
 def revealEntries (msgs : List (Nat × List (Nat × Nat))) : List (Nat × Nat × Nat) :=
   msgs.flatMap (fun (revealer, ks) => ks.map (fun (mis, key) => (revealer, mis, key)))
 
+/-- phase 11, step 1: inactivity marking -/
+def p11a (st : St) : St := markInactive st ((revealMsgs st).map (·.1))
+
+/-- the reveal messages phase 11 works on (in the unchanged tree `recoverMisbehavedShares` ranged
+    over ALL messages, not the deduplicated ones) -/
+def p11msgs (st : St) : List (Nat × List (Nat × Nat)) :=
+  if (p11a st).fixDedup11 then dedup (·.1) (revealMsgs st) else revealMsgs st
+
+/-- phase 11, step 2: validation of the messages -/
+def p11b (st : St) : St := validate11 (p11a st) (p11msgs st)
+
+/-- phase 11, step 3: recovery of the revealed shares -/
+def p11c (st : St) : St × Revealed :=
+  (revealEntries (p11msgs st)).foldl (recover11Step (p11b st)) (p11b st, [])
+
 def phase11 (st : St) : St :=
-  let msgs := revealMsgs st
-  let st := markInactive st (msgs.map (·.1))
-  -- in the unchanged tree recoverMisbehavedShares ranged over ALL messages (not deduplicated)
-  let msgs := if st.fixDedup11 then dedup (·.1) msgs else msgs
-  let st := validate11 st msgs
-  let (st, rev) := (revealEntries msgs).foldl (recover11Step st) (st, [])
-  if st.status ≠ .ok then st else
-  let rev := st.expected.foldl (fun rv e =>
-    match lookup e rv, lookup e st.recvS with
-    | some sh, some own => put e (put st.id own sh) rv
-    | _, _ => rv) rev
-  { st with revealed := rev, reconPriv := rev.map (fun (m, sh) => (m, interpolate0 st.q sh)) }
+  let r := p11c st
+  if r.1.status ≠ .ok then r.1 else
+  let rev := r.1.expected.foldl (fun rv e =>
+    match lookup e rv, lookup e r.1.recvS with
+    | some sh, some own => put e (put r.1.id own sh) rv
+    | _, _ => rv) r.2
+  { r.1 with revealed := rev, reconPriv := rev.map (fun (m, sh) => (m, interpolate0 r.1.q sh)) }
 
 def phase12 (st : St) : St :=
   let k := st.validPts.foldl (fun acc p => (acc + p.2.headD 0) % st.q) (st.pts.headD 0 % st.q)
